@@ -24,12 +24,14 @@ impl Context {
 //@end
 }
 // what Requirements::check must compute
+pub open spec fn any_in(cs: Seq<Capability>, caps: Set<Capability>) -> bool { exists|i: int| 0 <= i < cs.len() && caps.contains(#[trigger] cs[i]) }
+pub open spec fn all_in(cs: Seq<Capability>, caps: Set<Capability>) -> bool { forall|i: int| 0 <= i < cs.len() ==> caps.contains(#[trigger] cs[i]) }
 pub open spec fn req_sat(r: Requirements, caps: Set<Capability>) -> bool {
     match r {
         Requirements::None => true,
         Requirements::One(c) => caps.contains(c),
-        Requirements::Any(cs) => exists|i: int| 0 <= i < cs@.len() && caps.contains(#[trigger] cs@[i]),
-        Requirements::All(cs) => forall|i: int| 0 <= i < cs@.len() ==> caps.contains(#[trigger] cs@[i]),
+        Requirements::Any(cs) => any_in(cs@, caps),
+        Requirements::All(cs) => all_in(cs@, caps),
     }
 }
 impl Requirements {
@@ -43,11 +45,22 @@ pub broadcast proof fn lemma_req_any_pair(cs: &'static [Capability], caps: Set<C
     requires cs@.len() == 2,
     ensures #[trigger] req_sat(Requirements::Any(cs), caps) <==> (caps.contains(cs@[0]) || caps.contains(cs@[1])),
 {
+    if caps.contains(cs@[0]) { assert(0 <= 0 < cs@.len() && caps.contains(cs@[0])); }
+    if caps.contains(cs@[1]) { assert(0 <= 1 < cs@.len() && caps.contains(cs@[1])); }
+    if req_sat(Requirements::Any(cs), caps) {
+        let s = cs@;
+        let i = choose|i: int| 0 <= i < s.len() && caps.contains(#[trigger] s[i]);
+        assert(i == 0 || i == 1);
+    }
 }
 pub broadcast proof fn lemma_req_all_pair(cs: &'static [Capability], caps: Set<Capability>)
     requires cs@.len() == 2,
     ensures #[trigger] req_sat(Requirements::All(cs), caps) <==> (caps.contains(cs@[0]) && caps.contains(cs@[1])),
 {
+    if req_sat(Requirements::All(cs), caps) { assert(caps.contains(cs@[0])); assert(caps.contains(cs@[1])); }
+    if caps.contains(cs@[0]) && caps.contains(cs@[1]) {
+        assert forall|i: int| 0 <= i < cs@.len() implies caps.contains(#[trigger] cs@[i]) by { assert(i == 0 || i == 1); }
+    }
 }
 
 pub mod operation {
@@ -158,6 +171,89 @@ impl ErrorOption {
             res is Ok <==> permitted_error_option(self, ctx.server_capabilities.set@),      // OBL:C09.error_option.iff_permitted
             res matches Ok(v) ==> v == self,
 //@end
+}
+
+// ---------- builders: everything stored in a builder / operation is permitted by the advertised capabilities ----------
+pub struct OpaqueReply;
+//@item file=netconf/src/message/rpc/operation/params.rs kind=struct name=Required sub=/pub(super) =>pub ;value:=>pub value:/
+impl<T> Required<T> {
+//@extract id=required_init file=netconf/src/message/rpc/operation/params.rs impl=/impl<T> Required<T>/ fn=init rules=R1 vis=pub
+//@contract
+        ensures res.value is None,
+//@end
+//@extract id=required_set file=netconf/src/message/rpc/operation/params.rs impl=/impl<T> Required<T>/ fn=set rules=R1 vis=pub
+//@contract
+        ensures final(self).value == Some(value),
+//@end
+    // Required::require::<O>(name): Some(v) -> Ok(v), None -> Err(missing parameter)   (generic over the Operation trait: shim)
+    #[verifier::external_body]
+    pub fn require(self, param_name: &'static str) -> (r: Result<T, Error>)
+        ensures match self.value { Some(v) => r == Ok::<T, Error>(v), None => r is Err }
+    { unimplemented!() }
+}
+
+pub mod get {
+use super::*;
+//@item file=netconf/src/message/rpc/operation/get.rs kind=struct name=Get sub=/filter:=>pub filter:/
+//@item file=netconf/src/message/rpc/operation/get.rs kind=struct name=Builder sub=/ctx:=>pub ctx:;filter:=>pub filter:/
+pub open spec fn inv(b: Builder) -> bool { b.filter matches Some(f) ==> permitted_filter(f, b.ctx.server_capabilities.set@) }
+impl<'a> Builder<'a> {
+//@extract id=get_builder_filter file=netconf/src/message/rpc/operation/get.rs impl=/^impl Builder<'_>/ fn=filter rules=R1,R7,R16 r7map=option vis=pub
+//@contract
+        requires inv(self),
+        ensures
+            res is Ok <==> (filter matches Some(f) ==> permitted_filter(f, self.ctx.server_capabilities.set@)),   // OBL:C09.get.filter_iff_permitted
+            res matches Ok(b) ==> inv(b) && b.filter == filter && b.ctx == self.ctx,                               // OBL:C09.get.builder_holds_only_permitted
+//@end
+//@extract id=get_builder_new file=netconf/src/message/rpc/operation/get.rs impl=/Builder<'a, Get> for Builder<'a>/ fn=new rules=R1 vis=pub
+//@contract
+        ensures inv(res), res.ctx == ctx,
+//@end
+//@extract id=get_builder_finish file=netconf/src/message/rpc/operation/get.rs impl=/Builder<'a, Get> for Builder<'a>/ fn=finish rules=R1 vis=pub
+//@contract
+        requires inv(self),
+        ensures res matches Ok(op) && (op.filter matches Some(f) ==> permitted_filter(f, self.ctx.server_capabilities.set@)),   // OBL:C09.get.request_uses_only_permitted
+//@end
+}
+}
+
+pub mod get_config {
+use super::*;
+pub struct PhantomData<D> { pub _d: core::marker::PhantomData<D> }
+//@item file=netconf/src/message/rpc/operation/get_config.rs kind=struct name=GetConfig sub=/source:=>pub source:;filter:=>pub filter:;_reply: PhantomData<D>=>pub _reply: core::marker::PhantomData<D>/
+//@item file=netconf/src/message/rpc/operation/get_config.rs kind=struct name=Builder sub=/ctx:=>pub ctx:;filter:=>pub filter:;source:=>pub source:/
+pub open spec fn inv(b: Builder) -> bool {
+    &&& b.filter matches Some(f) ==> permitted_filter(f, b.ctx.server_capabilities.set@)
+    &&& b.source.value matches Some(ds) ==> permitted_source(ds, b.ctx.server_capabilities.set@)
+}
+impl<'a> Builder<'a> {
+//@extract id=get_config_builder_source file=netconf/src/message/rpc/operation/get_config.rs impl=/^impl Builder<'_>/ fn=source rules=R1,R7,R16 r7map=result vis=pub
+//@contract
+        requires inv(self),
+        ensures
+            res is Ok <==> permitted_source(source, self.ctx.server_capabilities.set@),                            // OBL:C09.get_config.source_iff_permitted
+            res matches Ok(b) ==> inv(b) && b.source.value == Some(source) && b.filter == self.filter && b.ctx == self.ctx,  // OBL:C09.get_config.builder_holds_only_permitted
+//@end
+//@extract id=get_config_builder_filter file=netconf/src/message/rpc/operation/get_config.rs impl=/^impl Builder<'_>/ fn=filter rules=R1,R7,R16 r7map=option vis=pub
+//@contract
+        requires inv(self),
+        ensures
+            res is Ok <==> (filter matches Some(f) ==> permitted_filter(f, self.ctx.server_capabilities.set@)),   // OBL:C09.get_config.filter_iff_permitted
+            res matches Ok(b) ==> inv(b) && b.filter == filter && b.source == self.source && b.ctx == self.ctx,
+//@end
+//@extract id=get_config_builder_new file=netconf/src/message/rpc/operation/get_config.rs impl=/Builder<'a, GetConfig<D>> for Builder<'a>/ fn=new rules=R1 vis=pub
+//@contract
+        ensures inv(res), res.ctx == ctx,
+//@end
+//@extract id=get_config_builder_finish file=netconf/src/message/rpc/operation/get_config.rs impl=/Builder<'a, GetConfig<D>> for Builder<'a>/ fn=finish rules=R1 vis=pub
+//@+ sub=/require::<GetConfig<D>>=>require;;_reply: PhantomData=>_reply: core::marker::PhantomData/
+//@sig pub fn finish<D>(self) -> (res: Result<GetConfig<D>, Error>)
+//@contract
+        requires inv(self),
+        ensures res matches Ok(op) ==> permitted_source(op.source, self.ctx.server_capabilities.set@)
+                && (op.filter matches Some(f) ==> permitted_filter(f, self.ctx.server_capabilities.set@)),         // OBL:C09.get_config.request_uses_only_permitted
+//@end
+}
 }
 
 } // mod operation
